@@ -38,7 +38,7 @@ TraceInit ==
 \* a queue is created with exactly the mechanisms the scenario asked for
 TReset == /\ Is("Reset")
           /\ ResetTo([n |-> Ev.n, indirect |-> Ev.ind, eventIdx |-> Ev.ev, ap |-> Ev.ap,
-                      adv |-> Has(Ev, "adv") /\ Ev.adv])
+                      adv |-> Has(Ev, "adv") /\ Ev.adv, inplace |-> Has(Ev, "inplace") /\ Ev.inplace])
 
 \* C06: rings are zeroed when the queue is registered
 TInitLinks == Is("InitLinks") /\ Ev.rings_zero /\ Ev.n = N /\ UNCHANGED vars
